@@ -15,7 +15,7 @@ from libcst.metadata import (
     Scope,
     ScopeProvider,
 )
-from libcst.metadata.scope_provider import GlobalScope
+from libcst.metadata.scope_provider import ClassScope, GlobalScope
 
 from codemodder.utils.utils import extract_targets_of_assignment
 
@@ -296,6 +296,17 @@ class NameResolutionMixin(MetadataDependent):
     def is_classmethod(self, node: cst.FunctionDef) -> bool:
         for decorator in node.decorators:
             if self.find_base_name(decorator.decorator) == "builtins.classmethod":
+                return True
+        return False
+
+    def reads_class_level_name(self, expr: cst.CSTNode) -> bool:
+        """
+        Does `expr`, evaluated in a class body, read a name bound in that class body? Such an expression cannot be
+        moved into a function or lambda: class-level names are not visible from the scopes nested in the class.
+        """
+        for name in matchers.findall(expr, matchers.Name()):
+            scope = self.get_metadata(ScopeProvider, name, None)
+            if isinstance(scope, ClassScope) and name.value in scope.assignments:
                 return True
         return False
 
